@@ -153,7 +153,7 @@ func checkLRDriver(c *Ctx, p *Prog, rule, pkg, fnName string, frontend bool) {
 			return VTuple{VOpq{"attrib"}, e}, nil
 		}
 		reg := &Region{
-			Fn: fn, Start: head, Cuts: cutSet(head),
+			Fn: fn, Start: head, Cuts: cutSet(head), StalePrologue: true,
 			PhiInputs: map[string]Val{"res": VOpq{"RES"}, "acc": boolConst(false)},
 			Summaries: map[string]Summary{
 				"*.top": topS, "*.Top": topS, "*.push": pushS, "*.Push": pushS, "*.popN": popS, "*.PopN": popS,
